@@ -87,13 +87,13 @@ def transI (v : Nat) (g : Rat) : Interaction := newResult (transverseMat g) [v]
 /-- field interaction on variable `v` -/
 def fieldI (v : Nat) (h : Rat) : Interaction := newResult (fieldMatShifted h) [v]
 
-theorem newDiagonalOffset_edge (vars : List Nat) (j : Rat) (hv : vars.length = 2) :
+theorem newDiagonalOffset_edge (vars : List Nat) (j : Rat) (hv : vars.length = 2) (hnd : vars.Nodup) :
     Interaction.newDiagonalOffset (edgeMat j) vars = .ok (edgeI vars j, -(absR j)) := by
   unfold Interaction.newDiagonalOffset
   simp only [minFold_edgeMat, Option.getD_some, edgeMat_shift]
   rw [newDiagonal_eq, if_pos]
   · rfl
-  · refine ⟨edgeMatShifted_nonneg j, ?_, ?_⟩
+  · refine ⟨edgeMatShifted_nonneg j, ⟨?_, hnd⟩, ?_⟩
     · intro h; rw [h] at hv; simp at hv
     · rw [hv]; rfl
 
@@ -276,6 +276,7 @@ end GenericSampler
 open GenericSampler
 
 theorem addEdges_eq (es : List (List Nat × Rat)) (hes : ∀ e ∈ es, e.1.length = 2)
+    (hnds : ∀ e ∈ es, e.1.Nodup)
     (q : GenericSampler) :
     addEdges es q = .ok (q.addList (es.map fun e => (edgeI e.1 e.2, true, -(absR e.2)))) := by
   induction es generalizing q with
@@ -283,12 +284,13 @@ theorem addEdges_eq (es : List (List Nat × Rat)) (hes : ∀ e ∈ es, e.1.lengt
   | cons e t ih =>
     obtain ⟨vars, j⟩ := e
     have hv : vars.length = 2 := hes (vars, j) (by simp)
-    have ht := ih (fun e he => hes e (by simp [he]))
+    have hnd : vars.Nodup := hnds (vars, j) (by simp)
+    have ht := ih (fun e he => hes e (by simp [he])) (fun e he => hnds e (by simp [he]))
     unfold addEdges
     have : q.makeDiagonalInteractionAndOffset (edgeMat j) vars
         = .ok (q.added (edgeI vars j, true, -(absR j))) := by
       unfold makeDiagonalInteractionAndOffset
-      rw [newDiagonalOffset_edge vars j hv]
+      rw [newDiagonalOffset_edge vars j hv hnd]
       exact addInteraction_eq q _ true (edgeI_sym vars j hv) _
     rw [this]
     simp only [Res.unwrap, Res.bind, List.map_cons, addList, List.foldl_cons]
@@ -345,6 +347,10 @@ open GenericSampler
 (for `Γ < 0` the Ising sampler itself cannot take a step: `gen_bool` of a negative ratio) -/
 structure IsingSampler.WF (g : IsingSampler) : Prop where
   edges2 : ∀ e ∈ g.model.edges, e.1.length = 2
+  /-- distinct endpoints: since fix F26 the interaction constructors reject a variable list naming a variable
+  twice, so `into_qmc` of a graph with a self-loop edge `(a, a)` panics on its `unwrap()` (the Ising sampler
+  itself panics on the first operator it inserts on such an edge) -/
+  edgesNodup : ∀ e ∈ g.model.edges, e.1.Nodup
   gammaNonneg : 0 ≤ g.model.transverse
 
 def edgeEntries (m : IsingModel) : List (Interaction × Bool × Rat) :=
@@ -377,7 +383,7 @@ theorem hasField_iff (m : IsingModel) : m.hasField = true ↔ eps < absR m.longi
 theorem intoQmc_eq (g : IsingSampler) (h : g.WF) : intoQmc g = .ok (convertResult g) := by
   unfold intoQmc
   simp only []
-  rw [addEdges_eq _ h.edges2]
+  rw [addEdges_eq _ h.edges2 h.edgesNodup]
   simp only [Res.bind]
   rw [addTransverse_eq _ h.gammaNonneg]
   set_option linter.unusedSimpArgs false in
@@ -393,10 +399,11 @@ theorem intoQmc_eq (g : IsingSampler) (h : g.WF) : intoQmc g = .ok (convertResul
 /-- for `Γ < 0` (and at least one variable) the conversion panics (`unwrap` of
 "Interaction contains negative weights") -/
 theorem intoQmc_neg_gamma (g : IsingSampler) (he : ∀ e ∈ g.model.edges, e.1.length = 2)
+    (hnd : ∀ e ∈ g.model.edges, e.1.Nodup)
     (hg : g.model.transverse < 0) (hn : 0 < g.model.nvars) : intoQmc g = .panic := by
   unfold intoQmc
   simp only []
-  rw [addEdges_eq _ he]
+  rw [addEdges_eq _ he hnd]
   simp only [Res.bind]
   obtain ⟨k, hk⟩ : ∃ k, g.model.nvars = k + 1 := ⟨g.model.nvars - 1, by omega⟩
   rw [hk, List.range_succ_eq_map, addTransverse_neg _ hg]
